@@ -113,7 +113,7 @@ class Transformer:
         :param task_type: the type of the task, i.e. whether it is a minimization or maximization task
         :return: an instance of EmpireModel class, i.e. the pydantic representation of the empire
         """
-        cost = empire.cost
+        cost = empire.emperor.cost
         return EmpireModel(
             position=empire.emperor.representation, cost=cost, fitness=calculate_fitness(cost, task_type)
         )
